@@ -66,8 +66,13 @@ pub fn run_program(program: &Value, env: &mut Env, first: bool) {
     }
 }
 
+/// <<n, d>> = n/d, or <<n, d, e>> = n/d * 2^e (exact for the subnormal grid point 2^-140)
 fn rat(v: &Value) -> f32 {
-    v[0].as_i64().unwrap() as f32 / v[1].as_i64().unwrap() as f32
+    let q = v[0].as_i64().unwrap() as f32 / v[1].as_i64().unwrap() as f32;
+    match v.get(2).and_then(|e| e.as_i64()) {
+        Some(e) => (q as f64 * 2.0f64.powi(e as i32)) as f32,
+        None => q,
+    }
 }
 
 fn make_optimizer(kind: &str, o: &Value, hp: &Value) -> optimizer::Optimizer {
@@ -678,8 +683,11 @@ pub fn replay_layerterm(case: &Value, rep: &mut Report, rng: &mut Rng) {
     let mut cfg = cfg0.clone();
     cfg["act"] = json!(act);
     let u = |k: &str| cfg0[k].as_u64().unwrap() as usize;
-    for round in 0..3 {
-        let xs: Vec<f32> = (0..nx).map(|_| rng.unit() * 3.0 - 1.5).collect();
+    // rounds 0..2: moderate data; round 3: inputs of magnitude up to 60, so that smooth activations saturate
+    // (pre-activations of a few hundred: the derivative is 0 there, never NaN)
+    for round in 0..4 {
+        let scale = if round == 3 { 40.0 } else { 1.0 };
+        let xs: Vec<f32> = (0..nx).map(|_| (rng.unit() * 3.0 - 1.5) * scale).collect();
         let ks: Vec<f32> = (0..nk).map(|_| rng.unit() * 2.0 - 1.0).collect();
         let gs: Vec<f32> = (0..no).map(|_| rng.unit() * 2.0 - 1.0 + 0.05).collect();
         let params = if kind == "dense" {
@@ -723,6 +731,16 @@ pub fn replay_layerterm(case: &Value, rep: &mut Report, rng: &mut Rng) {
             }
         };
         let near = |a: f32, b: f64, tol: f64| (a as f64 - b).abs() <= tol * b.abs().max(1.0);
+        if round == 3 {
+            // the double-precision reference itself must stay finite (it does for |pre| < 700)
+            let finite = (0..no).all(|o| eval64(&case["post"][o], &env).is_finite())
+                && (0..nx).all(|i| eval64(&case["dx"][i], &env).is_finite())
+                && (0..nk).all(|j| eval64(&case["dk"][j], &env).is_finite());
+            if !finite {
+                continue;
+            }
+            rep.count("layerterm_saturating_rounds", 1);
+        }
         let mut forward_ok = true;
         for o in 0..no {
             let (wp, wq) = (eval64(&case["pre"][o], &env), eval64(&case["post"][o], &env));
